@@ -102,7 +102,7 @@ def prepare_lean(theorem_modules, tier, need_driver=True):
         for m in re.finditer(r"'([^']+)' does not depend on any axioms", out):
             info["axioms"][m.group(1)] = []
         info["bad_axioms"] = {k: v for k, v in info["axioms"].items() if not set(v) <= ALLOWED_AXIOMS}
-        info["ok"] = rc == 0 and not info["bad_axioms"] and "error" not in out.lower().replace("errorratio", "")
+        info["ok"] = rc == 0 and not info["bad_axioms"] and not re.search(r"^\S*:\d+:\d+: error", out, flags=re.M)
         if rc != 0:
             info["log"] = out[-2000:]
         st.props[mod] = info
